@@ -109,6 +109,30 @@ def fatpipe_overloaded(cline):
     return fat
 
 
+def bounded_consumer_on(cline, bad):
+    """classification of a BMF capacity violation: does some variable WITH A BOUND consume one of the constraints named
+    over capacity?  (the registered finding bmf-capacity-exceeded is about get_alloc's treatment of bounded players; a
+    capacity excess without any bounded consumer is a different defect)"""
+    toks = cline.split(" ")
+    i = toks.index("NC")
+    nc = int(toks[i + 1])
+    j = i + 2
+    users = []
+    for _ in range(nc):
+        ne = int(toks[j + 2])
+        users.append([int(toks[j + 3 + 2 * k]) for k in range(ne)])
+        j += 3 + 2 * ne
+    assert toks[j] == "NV"
+    nv = int(toks[j + 1])
+    j += 2
+    bound = []
+    for _ in range(nv):
+        ncn = int(toks[j + 4])
+        bound.append(not toks[j + 2].startswith("-") and toks[j + 2] not in ("0", "0/1", "0x0p+0"))
+        j += 5 + 2 * ncn
+    return any(bound[v] for c in bad if c < len(users) for v in users[c] if v < len(bound))
+
+
 def run(ctx, mode):
     pid = ctx.pid
     ctx.cov["rule"] = ("cases = initial LMM system (<=12 constraints x <=20 variables, dyadic bounds/weights/penalties, 6 classes) + "
@@ -184,7 +208,12 @@ def run(ctx, mode):
                 if vals and all(not x.startswith("-") and not x.startswith("0/") for x in vals):
                     key = "bmf-variable-bound-exceeded"
             if solver == "bmf" and "over capacity [" in v and "over capacity []" not in v:
-                key = "bmf-capacity-exceeded"
+                bad = [int(x) for x in v.split("over capacity [")[1].split("]")[0].replace(",", " ").split()]
+                try:
+                    if bounded_consumer_on(q, bad):
+                        key = "bmf-capacity-exceeded"
+                except (ValueError, IndexError, AssertionError):
+                    key = None
             if solver == "maxmin" and v.endswith(" precision-model-agrees") and "over capacity []" in v and "values [" in v:
                 # no capacity exceeded, a variable with a negative rate, reproduced by the model at the configured precision:
                 # double_equals(min_bound, bound*penalty) matched a variable without bound (bound_ = -1), value_ = -1
